@@ -65,11 +65,21 @@ def main(tier):
         for j, ban in enumerate(bans):
             banned = [("200" if k == "HTTP-response-code" else k) for k in ban]
             cid = "q%d_%d" % (n, j)
-            if len(banned) >= 2 and n % 2 == 0:
-                # the same set given as two separate options
-                cases.append({"id": cid, "files": ff, "root": "main.jst", "banned": banned[1:], "banned2": banned[:1]})
-            else:
-                cases.append({"id": cid, "files": ff, "root": "main.jst", "banned": banned})
+            cases.append({"id": cid, "files": ff, "root": "main.jst", "banned": banned})
+            if len(banned) == 1:
+                # a second option banning a kind the project does not use must not weaken the first one
+                unused = [k for k in singles if k not in used and k != ban[0]]
+                if unused:
+                    other = unused[(n + j) % len(unused)]
+                    sid = cid + "_plus"
+                    cases.append({"id": sid, "files": ff, "root": "main.jst", "banned": ["200" if other == "HTTP-response-code" else other], "banned2": banned})
+                    meta[sid] = ("p%d" % n, ban, used, form, text, files, spans, m)
+            if len(banned) >= 2:
+                # the same set given as two separate options, each kind once in the earlier option
+                for e, one in enumerate(banned[:4]):
+                    sid = cid + "_split%d" % e
+                    cases.append({"id": sid, "files": ff, "root": "main.jst", "banned": [x for x in banned if x != one], "banned2": [one]})
+                    meta[sid] = ("p%d" % n, ban, used, form, text, files, spans, m)
             meta[cid] = ("p%d" % n, ban, used, form, text, files, spans, m)
     obs = harness("run", cases)
     hit = 0
